@@ -45,19 +45,19 @@ func (c coreConfig) GetMaxNumKeysPerMessage() uint64 { return MaxPerMsg }
 // Node is one node assembly: a database, the real P2PMessaging registries and the real
 // handlers registered in the order the node's Start function registers them.
 type Node struct {
-	Flavour  string
-	PG       *fakepg.Server
-	Pool     *pgxpool.Pool
-	Msg      *p2p.P2PMessaging
-	Handlers map[string][]p2p.MessageHandler // topic -> handlers in registration order (for the "why" probe)
-	Protos   map[string]p2pmsg.Message
-	Storage  *gnosisaccessnode.Storage // access node only
+	Flavour   string
+	PG        *fakepg.Server
+	Pool      *pgxpool.Pool
+	Msg       *p2p.P2PMessaging
+	Handlers  map[string][]p2p.MessageHandler // topic -> handlers in registration order (for the "why" probe)
+	Protos    map[string]p2pmsg.Message
+	Storage   *gnosisaccessnode.Storage // access node only
 	accessCfg *gnosisaccessnode.Config
-	Wd       time.Duration // watchdog (0: Watchdog); confirmation runs use a longer one
-	closers  []func()
-	pre      *fakepg.DB
-	preKey   any
-	dirty    bool
+	Wd        time.Duration // watchdog (0: Watchdog); confirmation runs use a longer one
+	closers   []func()
+	pre       *fakepg.DB
+	preKey    any
+	dirty     bool
 }
 
 // NewCoreNode assembles what keyper.KeyperCore.Start registers (keyper/keyper.go).
